@@ -282,6 +282,13 @@ impl MqttState {
             }
 
             if let Some(max_inflight) = props.receive_max {
+                // a receive maximum of zero is a protocol error [MQTT-3.2.2-7]; taken as a limit it
+                // would let packet ids grow past the configured inflight limit
+                if max_inflight == 0 {
+                    return Err(StateError::ConnFail {
+                        reason: ConnectReturnCode::ProtocolError,
+                    });
+                }
                 self.max_outgoing_inflight =
                     max_inflight.min(self.max_outgoing_inflight_upper_limit);
                 // the allocator wraps around when it reaches the limit exactly:
